@@ -697,7 +697,7 @@ func c07EngineSelection(c *core.Ctx) {
 				var ls []filterlist.RuleList
 				for i, content := range contents {
 					fn := filepath.Join(dir, fmt.Sprintf("l%d-%d.txt", len(opened), i))
-					if os.WriteFile(fn, []byte(content), 0o644) != nil {
+					if os.WriteFile(fn, []byte(util.ChopEOL(content)), 0o644) != nil {
 						return util.Storage(contents...)
 					}
 					fl, ferr := filterlist.NewFileRuleList(ids[i], fn, false)
